@@ -36,7 +36,9 @@ fn one(pid: i32, style: &str, addr: u64, n: usize, oracle: &dyn Fn(u64, usize) -
 
 pub fn run(cases: &[Value], random: usize, seed: u64, workdir: &str, tr: &mut Trace) {
     let pages = 20usize;
-    let cfg = json!({"threads": [], "regions": [{"name": "r", "len": pages * 4096, "above": "hole", "below": "guard"},
+    // all-ones words at and near the end of the readable extent and further inside, aligned and not
+    let ones: Vec<usize> = vec![16, 40, 808, 8192 + 3, 8192 + 64, 30000];
+    let cfg = json!({"threads": [], "regions": [{"name": "r", "len": pages * 4096, "above": "hole", "below": "guard", "ones_before_end": ones},
                                                  {"name": "g", "len": 8192, "above": "guard", "below": "hole"}]});
     let t = match TargetProc::spawn(&cfg, workdir, "mem") {
         Ok(t) => t,
@@ -55,7 +57,9 @@ pub fn run(cases: &[Value], random: usize, seed: u64, workdir: &str, tr: &mut Tr
     // oracle: the fill pattern is address-derived; the harness reads it once through /proc/<pid>/mem and cross-checks
     // it against the formula (so a strategy cannot be its own oracle)
     let whole = target::read_mem(pid, start, pages * 4096).unwrap_or_default();
-    let formula_ok = whole.len() == pages * 4096 && (0..whole.len()).step_by(8).all(|i| {
+    let planted = |i: usize| ones.iter().any(|k| { let at = pages * 4096 - k; i + 8 > at && i < at + 8 });
+    let ones_ok = whole.len() == pages * 4096 && ones.iter().all(|k| whole[pages * 4096 - k..pages * 4096 - k + 8] == [0xffu8; 8]);
+    let formula_ok = ones_ok && (0..whole.len()).step_by(8).filter(|i| !planted(*i)).all(|i| {
         let a = start + i as u64;
         let v = (crate::pattern::mix(a) | 0x8000_0000_0000_0000) & !0x0000_8000_0000_0000;
         whole[i..i + 8] == v.to_ne_bytes()
